@@ -5,6 +5,9 @@ import json, os, re, shutil, sys
 
 B = os.environ.get('SEEDBASE', '/tmp/r10')
 desc = json.load(open(sys.argv[1]))
+R = int(os.environ.get('SEEDROUND', 10))
+ORIGIN = {10: 'round 10: seeder saw only the property text and its own worktree; S = call history / cooperating sites, T = unusual input, interleaving or fault',
+          11: 'round 11: seeder saw only the property text and its own worktree; the change had to manifest only in a valid call made after a failed or rejected one (state left behind by an exception)'}
 for key, d in sorted(desc.items()):
     pid, X = key.split('_')
     src = f'{B}/{pid}'
@@ -24,12 +27,12 @@ for key, d in sorted(desc.items()):
     shutil.copy(f'{src}/patch_{X}.diff', f'{out}/patch.diff'); shutil.copy(f'{src}/demo_{X}.py', f'{out}/demo.py')
     if os.path.exists(f'{src}/notes.md'): shutil.copy(f'{src}/notes.md', f'{out}/notes_from_seeder.md')
     files = sorted(set(re.findall(r'^\+\+\+ b/(\S+)', open(f'{out}/patch.diff').read(), re.M)))
-    meta = {'property': pid, 'variant': X, 'round': 10, 'change': d['change'], 'needs_to_manifest': d['needs'], 'files_touched': files,
+    meta = {'property': pid, 'variant': X, 'round': R, 'change': d['change'], 'needs_to_manifest': d['needs'], 'files_touched': files,
             'confirmed_in_scratch_worktree': {'patch_applies': True, 'baseline_tests': tests, 'demo_rc_with_change': int(dw), 'demo_rc_without_change': 0},
             'commands_run': [f'tools/seedtest.sh seeded/{key}/patch.diff seeded/{key}/demo.py quick {pid}'],
             'caught_by': [pid] if after else [],
-            'caught': ('by the checks as they stood after round 9' if before else
-                       ('after strengthening (missed by the checks as they stood after round 9): ' + d.get('strengthening', '') if after else 'NOT CAUGHT: ' + d.get('strengthening', ''))),
-            'origin': 'round 10: seeder saw only the property text and its own worktree; S = call history / cooperating sites, T = unusual input, interleaving or fault'}
+            'caught': (f'by the checks as they stood after round {R - 1}' if before else
+                       (f'after strengthening (missed by the checks as they stood after round {R - 1}): ' + d.get('strengthening', '') if after else 'NOT CAUGHT: ' + d.get('strengthening', ''))),
+            'origin': ORIGIN[R]}
     json.dump(meta, open(f'{out}/meta.json', 'w'), indent=1)
     print(key, 'kept; before', before, 'after', after)
